@@ -14,12 +14,12 @@ def D(n, d, tier="quick", **kw): return H("c02_dso_debug::" + n, desc=d, tier=ti
 HARNESSES = [
     D("c02_dso_phnum_arbitrary", "AT_PHNUM and AT_PHDR arbitrary"),
     D("c02_dso_phdr_arbitrary", "2 arbitrary program headers"),
-    D("c02_dso_phdr_short_read", "short read of the program headers"),
+    D("c02_dso_phdr_short_read", "short read of the program headers", expect_unsat_covers=("the phase under test ran to its end (cut reached)",)),
     D("c02_dso_dynamic_arbitrary", "3 arbitrary dynamic entries, arbitrary PT_DYNAMIC address"),
-    D("c02_dso_dynamic_short_read", "short read of a dynamic entry"),
+    D("c02_dso_dynamic_short_read", "short read of a dynamic entry", expect_unsat_covers=("the phase under test ran to its end (cut reached)",)),
     D("c02_dso_linkmap_arbitrary", "arbitrary r_debug and link_maps", "thorough"),
-    D("c02_dso_rdebug_short_read", "short read of r_debug"),
-    D("c02_dso_linkmap_short_read", "short read of a link_map"),
+    D("c02_dso_rdebug_short_read", "short read of r_debug", expect_unsat_covers=("the phase under test ran to its end (cut reached)",)),
+    D("c02_dso_linkmap_short_read", "short read of a link_map", expect_unsat_covers=("the phase under test ran to its end (cut reached)",)),
     D("c02_dso_linkmap_cycle_terminates", "cyclic link_map list, reads never fail: the walk is bounded", termination=["write_dso_debug_stream"]),
     H("c06_stacks::c06_get_stack_info_256k", desc="get_stack_info: no overflow at the top of the address space, bounded guard walk", timeout=1800),
     H("c12_sanitize::c12_len8_off16_m1", desc="sanitizer: copy shorter than the stack-pointer offset", loops={"extend_with": 300, "sanitize_stack_copy#0": 4, "sanitize_stack_copy#2": 34, "sanitize_stack_copy#4": 9},
